@@ -37,7 +37,9 @@ from typing import Dict, List, Optional, Tuple
 
 MAX_PER_CLAUSE = 3
 
-NAMES = ["warning", "error", "info", "repr.number", "rule.line", "a.b", "bold", "red", "x"]
+# Theme accepts any mapping keys: names with a space ("log error" in a config file) and names that are also valid
+# definitions ("bold", "bold red") resolve to the theme's entry like any other name
+NAMES = ["warning", "error", "info", "repr.number", "rule.line", "a.b", "bold", "red", "x", "log error", "bold red"]
 DEFAULT_PROBES = ["repr.number", "rule.line", "bar.back", "none", "dim", "logging.level.info", "progress.percentage"]
 DEFINITIONS = ["bold red", "not a style", "nonexistent", "on blue", "link http://x", ""]
 STYLE_DEFS = ["bold", "red", "blue on white", "not bold", "italic #ff0000", "underline color(9)", "dim", "link http://a", "none", "on rgb(1,2,3)", "strike", "green", "bold not italic"]
@@ -124,7 +126,7 @@ def gen_themes(rng: random.Random):
     themes = []
     for _ in range(rng.randint(2, 4)):
         own = {}
-        for name in rng.sample(NAMES, rng.randint(1, 4)):
+        for name in rng.sample(NAMES, rng.choice((0, 1, 1, 2, 3, 4))):  # 0: a theme that defines nothing ("no overrides")
             own[name] = rng.choice(STYLE_DEFS)
         themes.append((own, rng.random() < 0.25))
     return themes
